@@ -114,7 +114,7 @@ func (g *gen) chooseConf() {
 	g.regexIx = -1
 	g.metaFmt = -1
 	// metadata
-	ext := g.pick(".key.json", ".key.json", ".json", ".key", "", ".keystore")
+	ext := g.pick(".key.json", ".key.json", ".json", ".key", "", ".keystore", "e")
 	if r.Intn(10) < 4 {
 		g.metaFmt = r.Intn(3)
 		names := [][]string{{"toml", "tml"}, {"json"}, {"yaml", "yml"}}[g.metaFmt]
@@ -408,9 +408,9 @@ func (g *gen) addAddress(i int) {
 	pwContent := pw
 	writePw := true
 	switch {
-	case kind < 6:
+	case kind < 9:
 		label = "good"
-	case kind < 8:
+	case kind < 11:
 		label = "wrong-key"
 		o := g.keys[(i+1+r.Intn(len(g.keys)-1))%len(g.keys)]
 		claimed := o.addr
@@ -418,42 +418,43 @@ func (g *gen) addAddress(i int) {
 			claimed = k.addr // the file even claims to be the requested address
 		}
 		keyContent = v3Write(r, o.priv, pw, claimed)
-	case kind < 10:
+	case kind < 13:
 		label = "no-password-file"
 		writePw = false
 		if r.Bool() {
 			keyContent = v3Write(r, k.priv, defaultPass, k.addr)
 			label = "no-password-file-default-key"
 		}
-	case kind == 10:
+	case kind == 13:
 		label = "password-is-directory"
 		pwContent = nil
 		if r.Bool() {
 			keyContent = v3Write(r, k.priv, defaultPass, k.addr)
 		}
-	case kind == 11:
+	case kind == 14:
 		label = "wrong-password"
 		pwContent = []byte(g.pick("not-it", "", string(defaultPass), string(pw)+"x", "X"+string(pw)))
 		if string(pwContent) == string(pw) {
 			label = "good"
 		}
-	case kind == 12:
+	case kind == 15:
 		label = "garbage-key-file"
 		keyContent = []byte(g.pick("", "{", "{}", "not json", `{"version":3}`, string(keyContent[:len(keyContent)/2])))
-	case kind == 13:
+	case kind == 16:
 		label = "empty-password-file"
 		pwContent = []byte{}
 		if r.Bool() {
 			keyContent = v3Write(r, k.priv, []byte{}, k.addr)
 			label = "empty-password-good"
 		}
-	case kind < 18:
+	case kind < 19:
 		label = "password-with-whitespace"
 		pwContent = wrapWS(r, pw)
-	case kind == 18:
-		label = "primary-is-directory"
 	default:
-		label = "primary-unreadable"
+		label = "primary-is-directory"
+		if r.Bool() {
+			label = "primary-unreadable"
+		}
 	}
 	g.layout[h] = label
 	name := g.goodName(h)
@@ -483,21 +484,30 @@ func (g *gen) addAddress(i int) {
 		keyPath := "m/" + nm + ".json"
 		pwPath := "m/" + nm + ".pw"
 		variant := 0
-		switch r.Intn(12) {
-		case 0:
+		switch r.Intn(16) {
+		case 0, 1:
 			variant = 1
-		case 1:
+		case 2, 3:
 			variant = 2
-		case 2:
-			variant = 3
-		case 3:
-			variant = 4
 		case 4:
-			variant = 5
+			variant = 3
 		case 5:
-			keyPath = "m/missing.json"
+			variant = 4
 		case 6:
+			variant = 5
+		case 7:
+			keyPath = "m/missing.json"
+		case 8:
 			keyPath = primaryPath // the metadata file names itself as the key file
+		}
+		// what a template prints for a missing entry is not a file name, even when such a file exists
+		if variant == 1 || variant == 2 || variant == 5 {
+			g.add("<no value>", kFile, keyContent)
+			g.add("m/<no value>.json", kFile, keyContent)
+			g.add("m/<no value>.pw", kFile, pw)
+			if variant == 1 && r.Bool() {
+				g.add("<no value>", kFile, pw)
+			}
 		}
 		if variant != 0 {
 			g.layout[h] = label + fmt.Sprintf("+meta-variant-%d", variant)
